@@ -111,6 +111,16 @@ Proof.
 Qed.
 Print Assumptions C11_reference_dualities.
 
+(* for every formula (inside or outside the fragments): the run rejects at the first update whose
+   verdict is FALSE, and otherwise at the end exactly when the last verdict is falsy *)
+Theorem C11_run_by_verdicts : forall phi tr,
+  run phi tr = match first_BF (verdicts phi tr) 0 with
+               | Some t => Reject t
+               | None => if is_falsy (last (verdicts phi tr) BT) then Reject (length tr - 1) else Accept
+               end.
+Proof. exact run_by_verdicts. Qed.
+Print Assumptions C11_run_by_verdicts.
+
 (* F5: outside the fragments the faithful model of rv_ltl violates the property *)
 Theorem C11_nested_until_refuted :
   exists f tr, fltl f tr 0 = true /\ run f tr = Reject 3 /\ verdict f tr = BF.
